@@ -174,15 +174,22 @@ func (m *Engine) InputIsTerminator() bool {
 		inputrc.Unescape(`\C-]`),
 	}
 
-	binds := make(map[string]inputrc.Bind)
-
-	for _, sequence := range terminators {
-		binds[sequence] = inputrc.Bind{Action: "abort", Macro: false}
+	// The keys that ran the current command have been consumed already:
+	// the keys still waiting in the stack are type-ahead, to be dispatched
+	// after this command, not to be examined (and consumed) here.
+	if m.active.Action == "abort" {
+		return true
 	}
 
-	bind, _, _, _ := m.dispatchKeys(binds)
+	caller := string(m.keys.Caller())
 
-	return bind.Action == "abort"
+	for _, sequence := range terminators {
+		if caller == sequence {
+			return true
+		}
+	}
+
+	return false
 }
 
 // Commands returns the map of all command functions available to the shell.
